@@ -185,6 +185,8 @@ def synth_element(rng, el, with_neg=None, max_charge=None):
 
 
 def synth_molecule(rng, name, stoich, masses, charge=0):
+    if charge != 0 and len(stoich) > 1 and rng.random() < 0.5:
+        stoich = dict(reversed(list(stoich.items())))      # same stoichiometry, elements written in another order than in the parent record
     M = sum(masses[e] * c for e, c in stoich.items()) - charge * 5.4858e-7
     n = sum(stoich.values())
     ie = rng.uniform(8, 16) * EV if charge <= 0 else float("inf")
